@@ -15,6 +15,7 @@ import (
 	"sync"
 	"sync/atomic"
 	"time"
+	"unicode/utf8"
 
 	"mvdan.cc/sh/v3/syntax"
 	"mvdan.cc/sh/v3/syntax/typedjson"
@@ -40,10 +41,11 @@ func init() {
 }
 
 type c06Opts struct {
-	lang    syntax.LangVariant
-	keep    bool
-	stopAt  string
-	recover int
+	lang     syntax.LangVariant
+	keep     bool
+	stopAt   string
+	recover  int
+	allPrint bool // run every printer option set on the returned trees, not a sample (not part of the witness)
 }
 
 func (o c06Opts) String() string {
@@ -150,7 +152,7 @@ func c06Mutant(n syntax.Node, slots []slotInfo, mask int) (syntax.Node, []string
 
 // c06Post runs the tree consumers; returns a description of the first panic.  ops receives
 // a few `wf` tie lines sampled from the tree.
-func c06Post(n syntax.Node, r *Rand, ops *[]c06Op) string {
+func c06Post(n syntax.Node, r *Rand, ops *[]c06Op, allPrint bool) string {
 	if n == nil || reflect.ValueOf(n).IsNil() {
 		return ""
 	}
@@ -219,10 +221,13 @@ func c06Post(n syntax.Node, r *Rand, ops *[]c06Op) string {
 			return "typedjson.Encode: " + p
 		}
 	}
-	for k := 0; k < 2; k++ {
+	for k := 0; k < 2 || (allPrint && k < len(c06PrintOpts)); k++ {
 		pi := r.Intn(len(c06PrintOpts))
-		if p := safely(func() { syntax.NewPrinter(c06PrintOpts[pi]...).Print(io.Discard, n) }); p != "" {
-			return fmt.Sprintf("Print(option set %d): %s", pi, p)
+		if allPrint {
+			pi = k
+		}
+		if p, where := c06Safely(func() { syntax.NewPrinter(c06PrintOpts[pi]...).Print(io.Discard, n) }); p != "" {
+			return fmt.Sprintf("Print(option set %d) in %s: %s", pi, where, p)
 		}
 	}
 	if p := safely(func() { syntax.Simplify(n) }); p != "" {
@@ -270,7 +275,7 @@ func c06One(entry int, o c06Opts, src string, r *Rand, ops *[]c06Op) (msg string
 			f, err := ps.Parse(rd, "")
 			if f != nil {
 				gotTree = err == nil && len(f.Stmts) > 0
-				msg = c06Post(f, r, ops)
+				msg = c06Post(f, r, ops, o.allPrint)
 				if msg != "" && err != nil {
 					msg += " [on the partial tree returned with the error: " + err.Error() + "]"
 				}
@@ -281,7 +286,7 @@ func c06One(entry int, o c06Opts, src string, r *Rand, ops *[]c06Op) (msg string
 					break
 				}
 				gotTree = true
-				if m := c06Post(s, r, ops); m != "" {
+				if m := c06Post(s, r, ops, o.allPrint); m != "" {
 					msg = m
 					break
 				}
@@ -292,7 +297,7 @@ func c06One(entry int, o c06Opts, src string, r *Rand, ops *[]c06Op) (msg string
 					break
 				}
 				gotTree = true
-				if m := c06Post(w, r, ops); m != "" {
+				if m := c06Post(w, r, ops, o.allPrint); m != "" {
 					msg = m
 					break
 				}
@@ -304,7 +309,7 @@ func c06One(entry int, o c06Opts, src string, r *Rand, ops *[]c06Op) (msg string
 				}
 				for _, s := range stmts {
 					gotTree = true
-					if m := c06Post(s, r, ops); m != "" {
+					if m := c06Post(s, r, ops, o.allPrint); m != "" {
 						msg = m
 					}
 				}
@@ -313,13 +318,13 @@ func c06One(entry int, o c06Opts, src string, r *Rand, ops *[]c06Op) (msg string
 			w, err := ps.Document(rd)
 			if w != nil && err == nil {
 				gotTree = true
-				msg = c06Post(w, r, ops)
+				msg = c06Post(w, r, ops, o.allPrint)
 			}
 		case 5:
 			e, err := ps.Arithmetic(rd)
 			if e != nil && err == nil {
 				gotTree = true
-				msg = c06Post(e, r, ops)
+				msg = c06Post(e, r, ops, o.allPrint)
 			}
 		}
 	})
@@ -330,6 +335,9 @@ func c06One(entry int, o c06Opts, src string, r *Rand, ops *[]c06Op) (msg string
 }
 
 // c06Class maps a failure to the class witness of an open known finding, or "".
+//   stopat-class newlit-after-refill — with a stop word that starts with a multi-byte rune, the
+//     stop-word test of Parser.next refills the buffer when that rune sits at its end; newLit then
+//     copies the rune's bytes from p.bs[p.bsp-w:p.bsp] with bsp == 0.
 //   recover-class arithm-unclosed-state — with RecoverErrors, arithmEnd (and the `$[` branch of wordPart)
 //     return on a recovered missing `))`/`]` without postNested: the lexer stays in arithmetic
 //     mode, whose literals do not reset p.eqlOffs; a later word is then sliced with the stale offset
@@ -338,6 +346,9 @@ func c06One(entry int, o c06Opts, src string, r *Rand, ops *[]c06Op) (msg string
 //     without patterns (the pattern loop does not run at EOF) and the missing `esac` is recovered:
 //     the returned tree is ill-formed, CaseItem.Pos() panics in Walk callbacks, Print and typedjson.
 func c06Class(o c06Opts, src, what string) string {
+	if o.stopAt != "" && o.stopAt[0] >= utf8.RuneSelf && strings.HasPrefix(what, "panic in (*Parser).newLit: runtime error: slice bounds out of range") {
+		return "stopat-class newlit-after-refill"
+	}
 	if o.recover == 0 {
 		return ""
 	}
@@ -464,6 +475,48 @@ var c06LookAhead = []struct{ pre, unit, post string }{
 
 func c06RunLens() []int { return []int{1100, 2100, 5000} }
 
+// Stop words (StopAt accepts at most four bytes without whitespace) and the words placed at the
+// edge of the 1 KiB read buffer: the stop-word test in Parser.next looks ahead and may refill.
+var c06StopWords = []string{"éé", "é", "$$", "EOF", "ab", "€", "}}"}
+
+func c06StopEdgeInput(stop string, k, variant int) string {
+	first := stop[:1]
+	if r, w := utf8.DecodeRuneInString(stop); r != utf8.RuneError {
+		first = stop[:w]
+	}
+	word := []string{first, stop, stop + "x", first + "x", stop[:len(stop)-1]}[variant%5]
+	return strings.Repeat("a", k) + " " + word + " x\necho more\n"
+}
+
+// Printer-sensitive shapes: here-document bodies and double quotes whose parts are separated by
+// escaped newlines (an escaped newline leaves an empty literal behind), expansions glued to
+// literals, empty parts.  They are printed with every option set.
+var c06PrinterShapes = []string{
+	"cat <<E\n${a}\\\n$b\nE\n", "cat <<E\n${a}\\\n\nE\n", "cat <<E\n$a\\\n${b}c\nE\n", "cat <<-E\n\t${a}\\\n\t$b\n\tE\n",
+	"${a}\\\n$b", "${a}\\\n", "\\\n${a}\\\n", "echo \"${a}\\\n$b\"\n", "echo \"${a}\\\n\"\n", "echo ${a}\\\nb ${c}\\\n\n",
+	"cat <<E\n${a}$b${c}d${e}_${f}[1]\nE\n", "echo ${a}b ${a}_ ${a}1 ${a}[ ${a}- ${10} ${1}0 \"${a}\"b ${a}\"b\"\n", "cat <<E\n\\\n\\\n\nE\n",
+	"cat <<E\n`a\\\n`\nE\n", "cat <<E\n$(a\\\n)${b}\\\n\nE\n", "echo \"\"'' $'' $\"\" \"$a\"\"\"\n", "a=${b}\\\nc d\n", "echo ${a:-${b}\\\n}c\n",
+}
+
+var c06HdocPieces = []string{"${a}", "$b", "\\\n", "$(c)", "`d`", "text", "\\$", "\\\\", "\t", " ", "${e:-f}", "$((1))", "\n", "${10}", "$1", "_", "[", "x", "\"", "'", "${g}h", "\\\r\n"}
+
+func c06HdocSoup(r *Rand) string {
+	var body strings.Builder
+	for i, n := 0, 1+r.Intn(8); i < n; i++ {
+		body.WriteString(c06HdocPieces[r.Intn(len(c06HdocPieces))])
+	}
+	switch r.Intn(4) {
+	case 0:
+		return body.String() // for Parser.Document (and whatever the other entry points make of it)
+	case 1:
+		return "cat <<-E\n\t" + body.String() + "\n\tE\n"
+	case 2:
+		return "echo \"" + strings.ReplaceAll(body.String(), "\"", "") + "\"\n"
+	default:
+		return "cat <<E\n" + body.String() + "\nE\n"
+	}
+}
+
 // c06LookAheadInput: optional padding so that the trigger sits at a chosen offset modulo the
 // buffer size, the trigger, the run, and more input after it.
 func c06LookAheadInput(k, n, pad int) string {
@@ -527,7 +580,7 @@ func c06OneSpec(e int, o c06Opts, label, src string) string {
 			li = i
 		}
 	}
-	return fmt.Sprintf("%d|%d|%v|%s|%d|%s|%s", e, li, o.keep, hx(o.stopAt), o.recover, hx(label), hx(src))
+	return fmt.Sprintf("%d|%d|%v|%s|%d|%s|%s|%v", e, li, o.keep, hx(o.stopAt), o.recover, hx(label), hx(src), o.allPrint)
 }
 
 func c06OneChild(spec string) {
@@ -535,7 +588,7 @@ func c06OneChild(spec string) {
 	e, _ := strconv.Atoi(f[0])
 	li, _ := strconv.Atoi(f[1])
 	rec, _ := strconv.Atoi(f[4])
-	o := c06Opts{lang: allLangs[li], keep: f[2] == "true", stopAt: unhx(f[3]), recover: rec}
+	o := c06Opts{lang: allLangs[li], keep: f[2] == "true", stopAt: unhx(f[3]), recover: rec, allPrint: len(f) > 7 && f[7] == "true"}
 	msg, _ := c06One(e, o, unhx(f[6]), (&Rand{s: 1}).Fork(unhx(f[5])), nil)
 	fmt.Println("C06-ONE-RESULT " + strings.ReplaceAll(msg, "\n", " "))
 }
@@ -730,7 +783,7 @@ func c06(c *Ctx) {
 	mkOpts := func(r *Rand) c06Opts {
 		o := c06Opts{lang: allLangs[r.Intn(len(allLangs))], keep: r.Bool()}
 		if r.Chance(25) {
-			o.stopAt = r.Pick([]string{"$$", "EOF", "}", "fi", "a", "#", "\\", "é", "))"}) // StopAt panics by contract on words with whitespace
+			o.stopAt = r.Pick([]string{"$$", "EOF", "}", "fi", "a", "#", "\\", "é", "))", "éé", "€"}) // StopAt panics by contract on words with whitespace or over four bytes
 		}
 		if r.Chance(40) {
 			o.recover = 1 + r.Intn(5)
@@ -739,9 +792,13 @@ func c06(c *Ctx) {
 	}
 	for _, l := range c.CorpusLines() {
 		f := strings.Fields(l)
+		stop := ""
+		if strings.HasPrefix(f[0], "stop:") {
+			stop = unhx(strings.TrimPrefix(f[0], "stop:"))
+		}
 		for _, lang := range allLangs {
 			for _, rec := range []int{0, 1, 4} {
-				jobs = append(jobs, job{unhx(f[len(f)-1]), "corpus", c06Opts{lang: lang, keep: rec == 1, recover: rec}, c.R.Fork(l)})
+				jobs = append(jobs, job{unhx(f[len(f)-1]), "corpus", c06Opts{lang: lang, keep: rec == 1, recover: rec, stopAt: stop, allPrint: true}, c.R.Fork(l)})
 			}
 		}
 	}
@@ -797,9 +854,12 @@ func c06(c *Ctx) {
 			kind = "splice"
 			a, b := seeds[r.Intn(len(seeds))], seeds[r.Intn(len(seeds))]
 			src = a[:r.Intn(len(a)+1)] + b[r.Intn(len(b)+1):]
-		case k < 94:
+		case k < 93:
 			kind = "deep"
 			src = c06Deep(r)
+		case k < 94:
+			kind = "hdoc-soup"
+			src = c06HdocSoup(r)
 		case k < 96:
 			kind = "lookahead-run"
 			src = c06LookAheadInput(r.Intn(len(c06LookAhead)), c06RunLens()[r.Intn(3)], []int{0, 1018, 1020, 1021, 1022, 1023, 1024, 1025, 3 + r.Intn(2100)}[r.Intn(9)])
@@ -823,7 +883,35 @@ func c06(c *Ctx) {
 		if kind == "truncation" && o.recover == 0 {
 			o.recover = 1 + r.Intn(5)
 		}
+		if kind == "hdoc-soup" {
+			o.allPrint = true
+		}
+		if kind == "lookahead-run" && r.Chance(30) {
+			o.stopAt = c06StopWords[r.Intn(len(c06StopWords))]
+		}
 		jobs = append(jobs, job{src, kind, o, r.Fork(fmt.Sprint(i))})
+	}
+	// the stop word at the edge of the read buffer: every offset around 1024, five word shapes
+	nse := 0
+	for si, stop := range c06StopWords {
+		for k := 1008; k <= 1032; k++ {
+			for v := 0; v < 5; v++ {
+				nse++
+				if nse%c.Shards != c.Shard {
+					continue
+				}
+				src := c06StopEdgeInput(stop, k, v)
+				jobs = append(jobs, job{src, "stopat-edge", c06Opts{lang: allLangs[(k+si+v)%len(allLangs)], keep: k%2 == 0, stopAt: stop}, c.R.Fork(src)})
+			}
+		}
+	}
+	for k, src := range c06PrinterShapes {
+		if k%c.Shards != c.Shard {
+			continue
+		}
+		for _, lang := range allLangs {
+			jobs = append(jobs, job{src, "printer-shape", c06Opts{lang: lang, keep: true, allPrint: true}, c.R.Fork(src)})
+		}
 	}
 	// (scheduled last: should one of them hang, little other work is lost)
 	// look-ahead runs: every trigger × three run lengths × every variant (the shards share the
